@@ -640,19 +640,40 @@ def gen_model(rng, *, stratum: str):
     if stratum == "samepath":
         case["prev"] = gen_model(rng, stratum="exact")["model"]
     if stratum == "compartment":
-        # the `compartments` option of `write`: another size, another id, several compartments
-        opt = rng.choice(["size", "size", "id", "two"])
+        # the `compartments` option of `write`: another size, another id, several compartments (the species live in
+        # the first one), none at all, an id that is a component name; and the default compartment next to a
+        # component called like it.  Sizes other than 1 everywhere: a species written as a concentration shows.
+        opt = rng.choice(["size", "size", "id", "two", "two", "empty", "clash", "defaultname"])
+        size = rng.choice(["2", "1/2", "4", "1"])
         if opt == "size":
-            case["compartments"] = [["compartment", rng.choice(["2", "1/2", "4"])]]
+            case["compartments"] = [["compartment", size]]
         elif opt == "id":
-            case["compartments"] = [[rng.choice(["c", "cell", "cytosol"]), "1"]]
-        else:
-            case["compartments"] = [["compartment", "1"], ["c2", rng.choice(["1", "2"])]]
-        if opt != "two":  # a second compartment holds no species: its size is immaterial
-            case["finding"] = "F-C08-14"
-        else:
+            case["compartments"] = [[rng.choice(["c", "cell", "cytosol"]), size]]
+        elif opt == "two":
+            first = rng.choice(["compartment", "cell", "c0"])
+            pair = [[first, size], ["c2", rng.choice(["1", "2"])]]
+            if rng.random() < 0.4:
+                pair = [["c2", rng.choice(["1/2", "2"])], [first, size]]
+            case["compartments"] = pair
             case["options"] = rng.choice([{"model_name": "my model-1"}, {"units": True}, {"model_name": "m2", "units": True},
                                           {"time_units": "second", "extent_units": "mole"}])
+        elif opt == "empty":
+            case["compartments"] = []
+            case["refuse"] = True
+        elif opt == "clash":
+            names = [n for n, _ in model["params"] + model["vars"] + model["derived"]] + [r["name"] for r in model["rxns"]]
+            case["compartments"] = [["c0", "1"], [rng.choice(names), size]]
+            rng.shuffle(case["compartments"])
+            case["refuse"] = True
+        else:
+            # no option; a parameter called like the default compartment (or like the name that avoids it)
+            model["params"].append(["compartment", ["val", rng.choice(["3", "5/2"])]])
+            if rng.random() < 0.5:
+                model["params"].append(["compartment_", ["val", "7"]])
+            f = model["rxns"][0]["fn"]
+            f["params"] = f["params"] + ["cpar"]
+            f["args"] = f["args"] + ["compartment"]
+            f["body"] = [["ret", ["binop", "Add", f["body"][0][1], ["name", "cpar"]]]] + f["body"][1:]
     return case
 
 
@@ -823,8 +844,13 @@ def parse_doc(path: Path):
 
     return {
         "params": [[p.getId(), _val(p.getValue()) if p.isSetValue() else None] for p in m.getListOfParameters()],
-        "species": [[s.getId(), _val(s.getInitialConcentration()) if s.isSetInitialConcentration() else None]
+        "species": [[s.getId(), _val(s.getInitialAmount()) if s.isSetInitialAmount() else (
+                        _val(s.getInitialConcentration()) if s.isSetInitialConcentration() else None)]
                     for s in m.getListOfSpecies()],
+        "compartments": [[c.getId(), _val(c.getSize())] for c in m.getListOfCompartments()],
+        "species_attrs": [[s.getId(), s.getCompartment(), bool(s.getHasOnlySubstanceUnits()),
+                           "concentration" if s.isSetInitialConcentration() else "amount"]
+                          for s in m.getListOfSpecies()],
         "inits": [[i.getSymbol(), math_sexpr(i.getMath(), names)] for i in m.getListOfInitialAssignments()],
         "rules": [[r.getVariable(), math_sexpr(r.getMath(), names)] for r in m.getListOfRules()],
         "rxns": [{"id": r.getId(), "reactants": [ref(s) for s in r.getListOfReactants()],
@@ -840,6 +866,7 @@ def canon_doc(d):
 
     return {
         "params": d["params"], "species": d["species"], "inits": [cm(x) for x in d["inits"]],
+        "compartments": d.get("compartments"), "species_attrs": d.get("species_attrs"),
         "rules": sorted((cm(x) for x in d["rules"]), key=lambda kv: kv[0]),  # stable: duplicates keep document order
         "rxns": [{"id": r["id"], "reactants": r["reactants"], "products": r["products"], "law": canon_math(r["law"])}
                  for r in d["rxns"]],
@@ -932,7 +959,7 @@ def real_worker(job):
             except Exception as e:  # noqa: BLE001
                 out["orig"] = {"err": type(e).__name__, "msg": str(e)[:200]}
         try:
-            if case.get("compartments"):
+            if case.get("compartments") is not None:
                 from mxlpy.sbml._data import Compartment
 
                 import libsbml
@@ -1061,7 +1088,8 @@ def judge_case(ctx, case, R, M):
     }
     kinds["all"] = kinds["static"] + kinds["dynamic"]
     small = {k: case.get(k) for k in ("kind", "model", "states", "must_raise", "finding", "floaty", "source", "prev",
-                                       "compartments", "options") if k not in ("compartments", "options") or case.get(k)}
+                                       "compartments", "options", "refuse")
+             if k not in ("compartments", "options", "refuse") or case.get(k) is not None}
     r_exp = "error" if "err" in R["export"] else "ok"
     m_exp = None if M is None else ("error" if "err" in M["export"] else "ok")
     if M is not None and bool(M["unsupported"]) != bool(case["must_raise"]):
@@ -1078,6 +1106,13 @@ def judge_case(ctx, case, R, M):
         sp = view(lean_numbers(M["spec"]), ident0, kinds, ref=S0, fill_none=True)
         if json.dumps(sp, sort_keys=True) != json.dumps(S0, sort_keys=True):
             ctx.add_drift(small, S0, sp, "Lean spec of the original model (evalPy) differs from the real model")
+    # 1a. options of `write` that have no document: no compartment for the species, a compartment called like a component
+    if case.get("refuse"):
+        ctx.hist["option refused"] = ctx.hist.get("option refused", 0) + 1
+        ctx.judge(small, {"export": r_exp if r_exp == "ok" else "error:" + R["export"]["err"]}, {"export": "error:ValueError"},
+                  None if m_exp is None else {"export": m_exp if m_exp == "ok" else "error:" + M["export"]["err"]},
+                  what="write(compartments=...) without a compartment for the species / with an id that is a component name must raise")
+        return
     # 1. constructs without MathML counterpart
     if case["must_raise"]:
         ctx.judge(small, {"export": r_exp}, {"export": "error"}, None if m_exp is None else {"export": m_exp},
@@ -1097,6 +1132,10 @@ def judge_case(ctx, case, R, M):
         return
     # 2. structure of the written document
     if M is not None:
+        # `exportModel` (what the round-trip theorems speak about) is the component part of `writeModel`
+        if m_exp == "ok" and ("ok" not in M["export_plain"] or any(
+                M["export_plain"]["ok"][k] != M["export"]["ok"][k] for k in M["export_plain"]["ok"])):
+            ctx.add_drift(small, M["export"], M["export_plain"], "writeModel and exportModel differ on the components")
         if m_exp == "error":
             ctx.add_drift(small, "export ok", M["export"], "model predicts an export error")
         else:
@@ -1140,9 +1179,8 @@ def judge_case(ctx, case, R, M):
     for k, v in stats.items():
         ctx.hist[f"numbers {k}"] = ctx.hist.get(f"numbers {k}", 0) + v
     fid = case["finding"]
-    if fid in ("F-C08-9", "F-C08-14"):
+    if fid == "F-C08-9":
         Mv = None  # pysbml refuses booleans as numbers; the model does not predict third-party exceptions
-        # (F-C08-14: the Lean document has the default compartment only)
     ctx.judge(small, Rv, S, Mv, finding=fid, what="export -> import changes names, initial values, derived values, fluxes or derivatives")
 
 
@@ -1248,7 +1286,7 @@ def shrink(ctx, viol, budget: int = 40):
                 break
             spent += 1
             try:
-                c2 = prepare({k: cand.get(k) for k in ("kind", "model", "states", "must_raise", "finding", "floaty", "prev", "compartments", "options")})
+                c2 = prepare({k: cand.get(k) for k in ("kind", "model", "states", "must_raise", "finding", "floaty", "prev", "compartments", "options", "refuse")})
                 (R, M), = evaluate(ctx, [c2])
                 probe = Ctx(ctx.prop, ctx.tier, ctx.seed)
                 probe.known, probe.fixed = ctx.known, ctx.fixed
@@ -1275,7 +1313,7 @@ def prepare(case):
 
 
 def evaluate(ctx, cases):
-    reqs = [{"op": "c08", "model": c["wire"], "states": c["states"]} for c in cases]
+    reqs = [{"op": "c08", "model": c["wire"], "states": c["states"], "compartments": c.get("compartments")} for c in cases]
     Ms = driver.call_batch(reqs) if ctx.driver_ok else [None] * len(cases)
     jobs = [({k: c.get(k) for k in ("kind", "model", "states", "must_raise", "source", "prev", "prev_source", "compartments", "options")},
              dict(m["names"]) if m is not None else {}) for c, m in zip(cases, Ms)]
@@ -1303,8 +1341,8 @@ def setup(ctx):
         "(pysbml's identifier mapping is modelled as nameToPy)",
         "numbers are compared exactly where double arithmetic is exact and to 1e-9 relative otherwise "
         "(sympy reorders expressions on import)",
-        "modifiers, units, the model name and compartments other than the default one are outside the Lean model "
-        "(stratum `compartment` is oracle-only; known finding F-C08-14)",
+        "modifiers, units and the model name are outside the Lean model; the compartments option and the species "
+        "attributes are modelled (writeModel) and compared with the written file",
     ]
     ctx.trusted_base += ["translate/c08.py renders tables and structural choices of _export.py faithfully (refuses otherwise)"]
 
@@ -1313,7 +1351,7 @@ def strata(ctx):
     n = ctx.n(1, 32)
     plan = [("exact", 130 * n), ("float", 80 * n), ("names", 30 * n), ("refclash", 16 * n), ("boolnum", 9 * n),
             ("gennames", 24 * n), ("samepath", 16 * n), ("sharedfn", 26 * n), ("permargs", 24 * n), ("body", 20 * n),
-            ("compartment", 10 * n)]
+            ("compartment", 24 * n)]
     plan += [(f"unsupported:{k}", (2 if k.startswith("near:") else 3) * n) for k, _ in UNSUPPORTED]
     return plan
 
@@ -1350,7 +1388,7 @@ def run(ctx):
 
 def replay(ctx, rp):
     case = rp["case"]
-    case = prepare({k: case.get(k) for k in ("kind", "model", "states", "must_raise", "finding", "floaty", "prev", "compartments", "options")})
+    case = prepare({k: case.get(k) for k in ("kind", "model", "states", "must_raise", "finding", "floaty", "prev", "compartments", "options", "refuse")})
     (R, M), = evaluate(ctx, [case])
     print(case["source"])
     print("R =", json.dumps(R, indent=1)[:4000])
